@@ -64,7 +64,7 @@ def norm_expected(schema):
         for k in ("ifaces", "fields", "members", "values"):
             t.setdefault(k, [])
         types.append(t)
-    a = {"query": schema["query"], "mutation": schema.get("mutation", ""), "subscription": "", "types": types, "directives": []}
+    a = {"query": schema["query"], "mutation": schema.get("mutation", ""), "subscription": schema.get("subscription", ""), "types": types, "directives": []}
     return schemagamma.normalize(a, with_defaults=False)
 
 
